@@ -11,9 +11,12 @@ ties  : K-parse  model parser over the real token stream == Environment.parse (c
                  and == the text of '{{ e }}', same four environments, incl. call logs
 oracle: real value == ExprSpec.eval (error classes mapped to a small enum)
 """
+import random
+
 from . import lib
 from . import expr_common as X
 from . import expr_parse as XP
+from . import expr_ref as XR
 
 RULE = ("type-directed random expression trees (depth <= 4 quick / 6 thorough) over a value pool with ints, strings, "
         "Markup, lists, tuples, dicts, None, undefined names, opaque callables and probe objects having an attribute AND "
@@ -22,7 +25,17 @@ RULE = ("type-directed random expression trees (depth <= 4 quick / 6 thorough) o
         "(source text, data) ; non-trivial = the model gives a value or a modelled error class (not 'opaque') and the "
         "expression has >= 3 nodes kinds or an attribute/subscript access. History stream (oracle only): pairs and random "
         "sequences of filter expressions whose arguments are ==-equal but differently typed (0/false/0.0, 1/true/1.0, ''/Markup ...) "
-        "evaluated in ONE Environment, each compared with its value in a fresh environment.")
+        "evaluated in ONE Environment, each compared with its value in a fresh environment. Reference stream (oracle only): random expressions "
+        "(incl. *args/**kwargs calls, float constants) over real Python values (float / bool / int of equal value, a str subclass overriding "
+        "__str__/__eq__/__hash__, tuple vs list, Mapping / MappingProxy / OrderedDict / defaultdict vs dict, generator, iterator, range, __iter__-only, "
+        "__getitem__-only, objects whose attribute or item protocol raises caught and uncaught classes, raising properties, objects falsy by "
+        "__bool__ / __len__) compared with an independent Python interpreter of the documented semantics, under 9 environment kinds (plain, "
+        "overlay, sandboxed, immutable sandboxed, optimized=False, async, native, Template(...) constructor, autoescape) x 5 undefined classes "
+        "(Undefined, Strict, Chainable, Debug, a user subclass) x entry points compile_expression(undefined_to_none False / default), module "
+        "variable of {% set %}, render / render_async, generate / generate_async, and one compiled expression called three times with different data. "
+        "Filter-environment stream (oracle only): ~130 invocation shapes of the builtin filters and tests (every filter with an async implementation, keyword and positional "
+        "arguments, generators as input) x ==-equal differently typed argument values, each evaluated in plain / async / sandboxed / async sandboxed / immutable / "
+        "optimized=False / async unoptimized / overlay / native environments: all nine must agree.")
 
 MODES = ["default", "async", "sandbox", "noopt"]
 
@@ -175,6 +188,75 @@ def run_history(ctx):
             ctx.validated()
 
 
+# ---------------------------------------------------------------- one semantics in every environment kind (oracle only)
+# (builtin filters and tests beyond the modelled table: the documented value does not depend on the environment kind --
+#  several filters have a second, async implementation, the sandbox wraps calls, the optimizer may evaluate them early)
+FILTER_POOL = HIST_TEMPLATES + [
+    'rows|groupby("a")|list', 'rows|groupby("b")|map(attribute="list")|list', 'rows|groupby("c", default=@)|list', 'rows|groupby("a", @)|list', 'rows|groupby("b", case_sensitive=@)|list',
+    'rows|groupby("b", default=@, case_sensitive=true)|list', 'words|groupby(0)|list', 'words|groupby(0, case_sensitive=@)|map("first")|list', 'lol|map("first")|list', 'lol|map("sum")|list',
+    'lol|map("join", @)|list', 'rows|map(attribute="b")|join(@)', 'rows|selectattr("a")|list', 'rows|rejectattr("a")|list', 'rows|selectattr("a", "eq", @)|list', 'rows|rejectattr("b", "in", ["x", @])|list',
+    '[0, 1, 2]|select("odd")|list', '[0, 1, 2]|reject("eq", @)|list', '[0, 1, 2]|select|list', 'lol|sum(start=[])', 'rows|sum(attribute="a", start=@)|string', '[1, 2, 3]|slice(2)|map("list")|list',
+    '[1, 2, 3]|slice(2, @)|map("list")|list', '[1, 2, 3]|batch(2, @)|map("list")|list', 'rows|first', 'rows|last', 'gen|first', 'gen|list', 'gen|join(@)', 'gen|map("string")|list', 'gen|select("odd")|list',
+    'gen|sum(start=@)', 'gen|slice(2)|map("list")|list', 'gen|groupby(0)|list|length', 'words|unique(case_sensitive=@)|list', 'words|sort(case_sensitive=@)', 'words|min(case_sensitive=@)', 'words|max(case_sensitive=@)',
+    'rows|sort(attribute="b", reverse=@)|map(attribute="b")|list', 'd|dictsort(case_sensitive=@)', 'd|dictsort(by="value", reverse=@)', 'd|items|list', 'words|join(@)|upper', 'words|reverse|list', 'words|random is string',
+    'words|length + @|int', '@|int(5)', '@|float(2.5)', '@|abs', '@|string|length', '@|list', '@|default("d", true)', '@ is divisibleby(2)', '@ is in([0, 1, ""])', '@ is sameas(0)', '@|tojson', '@|e', '"%s"|format(@)',
+    '"a b c"|replace("b", @|string)', '"abc"|center(@|int + 7)', '"a,b"|indent(@|int, true)', '3.7|round(@|int, "floor")', '[@, 1, 2]|min', '[@, 1, 2]|max', '[@, "x"]|join("-")', '"x"|truncate(9, @, "..")',
+    '"hello world"|wordwrap(@|int + 5)', '"<a>"|striptags ~ @', '"a"|filesizeformat if false else @', '12345|filesizeformat(@)', 'rows|attr("b") is defined', 'rows|tojson(indent=@|int)', 'words|xmlattr if false else @',
+    '{"a": @}|xmlattr', '{"a": @}|urlencode', '"a b"|urlencode ~ @', '"http://x.y a"|urlize(@|int + 3)', '"a"|title ~ @', '"a b"|capitalize ~ @', '" a "|trim(@|string)', '[1, [2, @]]|pprint', 'range(@|int + 3)|list',
+]
+
+
+def run_filter_envs(ctx):
+    import jinja2
+    from jinja2.nativetypes import NativeEnvironment
+    from jinja2.sandbox import ImmutableSandboxedEnvironment, SandboxedEnvironment
+    kinds = {"plain": lambda: jinja2.Environment(), "async": lambda: jinja2.Environment(enable_async=True), "sandbox": lambda: SandboxedEnvironment(),
+             "async-sandbox": lambda: SandboxedEnvironment(enable_async=True), "immutable": lambda: ImmutableSandboxedEnvironment(), "noopt": lambda: jinja2.Environment(optimized=False),
+             "overlay": lambda: jinja2.Environment().overlay(), "native": lambda: NativeEnvironment(), "async-noopt": lambda: jinja2.Environment(enable_async=True, optimized=False)}
+    envs = {k: f() for k, f in kinds.items()}
+
+    def data():
+        return {"rows": [{"a": 1, "b": "x"}, {"b": "Y"}, {"a": 0, "b": "y"}], "objs": [X.Obj(7, {"v": 1}, []), X.Obj(8, {}, [])], "lol": [[0, 5], [1, 4], [0, 3]], "n0": None,
+                "words": ["b", "a", "B", "a"], "d": {"b": 1, "A": 2, "a": 0}, "gen": (x for x in [3, 1, 2, 1])}
+
+    def value(kind, src):
+        env = envs[kind]
+        try:
+            t = env.from_string("{% set r = " + src + " %}")
+            m = X.run_async(t.make_module_async(data())) if env.is_async else t.make_module(data())
+            return ("ok", XR.canon(m.r))
+        except Exception as ex:
+            return ("err", type(ex).__name__)
+
+    allv = [v for vals in EQ_CLASSES.values() for v in vals] + ['"a"', '"B"', "[1]", "2.5"]
+    todo = [(t, v) for t in FILTER_POOL for v in (allv if "@" in t else [None])]
+    if ctx.tier == "quick":
+        todo = [tv for i, tv in enumerate(todo) if tv[0] not in HIST_TEMPLATES or i % 3 == 0]
+    shown = {}
+    for t, v in todo:
+        src = t if v is None else t.replace("@", v)
+        if "random" in src:
+            random.seed(0)
+        base = value("plain", src)
+        ok = True
+        for kind in kinds:
+            if kind == "plain":
+                continue
+            if "random" in src:
+                random.seed(0)
+            got = value(kind, src)
+            if got != base:
+                ok = False
+                if shown.get(kind, 0) < 3:
+                    shown[kind] = shown.get(kind, 0) + 1
+                    ctx.reject({"kind": "filter-envs", "expr": src, "env": kind, "plain": repr(base)[:300], "other": repr(got)[:300]},
+                               f"{src} is {base!r:.250} in a plain environment but {got!r:.250} in the {kind} environment", "C02:filter-envs:" + kind + ":" + t)
+        ctx.case(sample={"expr": src, "value": repr(base)[:80]} if base[0] == "ok" and len(ctx.samples) < 40 and hash(src) % 29 == 0 else None, key=("filter-envs", src) if base[0] == "ok" else None)
+        ctx.count("filter_envs_" + base[0])
+        if ok:
+            ctx.validated()
+
+
 def run(ctx):
     X.use_jinja()
     ctx.extra["rule"] = RULE
@@ -192,6 +274,10 @@ def run(ctx):
 
     # ---------------- histories in one environment (oracle only)
     run_history(ctx)
+    run_filter_envs(ctx)
+
+    # ---------------- reference evaluator over real Python values x environment kinds x undefined classes x entry points (oracle only)
+    XR.run_ref_stream(ctx)
 
     # ---------------- K-eval / K-gen / oracle
     depth = ctx.size(4, 6)
@@ -222,6 +308,8 @@ def replay(ctx, data):
         return run(ctx)
     if case.get("kind") == "parse":
         return XP.replay(ctx, case)
+    if case.get("kind") == "ref":
+        return XR.replay(ctx, case)
     e = eval(case["tree"], {"Markup": X._markup()})
     ds = case["data_seed"]
     modes = [case["mode"]]
